@@ -168,7 +168,7 @@ func H_M2_field_scalars2() { mRoundTrip(0, mOneFieldBytes(0)) }
 //verif:props=C04,C13 bounds=VScalars3;tag-byte+complete-payload-of-every-wire-type maxsteps=8000000
 func H_M2_field_scalars3() { mRoundTrip(1, mOneFieldBytes(0)) }
 
-//verif:props=C04 bounds=VRepeats;tag-byte+complete-payload-of-every-wire-type maxsteps=8000000
+//verif:props=C04 bounds=VRepeats;tag-byte+complete-payload-of-every-wire-type maxsteps=8000000 tier=thorough timeout=60000
 func H_M2_field_repeats() { mRoundTrip(2, mOneFieldBytes(0)) }
 
 // H_M2_implicit_zero: an implicit-presence (proto3) scalar holding its zero value is never
